@@ -8,9 +8,9 @@ from props import c01, c08
 
 ID = "C09"
 LEVEL = "proof"
-THEOREMS = ["C09_emit_wf_pil", "C09_wf_check_sound", "C09_wf_check2_sound", "C09_compiled_struct_balanced", "C09_domain_struct_balanced"]
+THEOREMS = ["C09_emit_wf_pil", "C09_wf_check_sound", "C09_wf_check2_sound", "C09_compiled_struct_balanced", "C09_domain_struct_balanced", "C09_accepted_wf_pil", "C09_reserved_names"]
 TRUSTED = c01.TRUSTED
-ASSUMPTIONS = c01.ASSUMPTIONS + ["'every accepted program yields an object satisfying WF/WF2' is established per case by the proved-sound checkers wf_check/wf_check2 (general proof pending)"]
+ASSUMPTIONS = c01.ASSUMPTIONS
 
 def mutate_ast(rng, prog):
     p = copy.deepcopy(prog)
